@@ -70,6 +70,10 @@ def check_fresh_host(rep, core):
                                                                 ('core::option::Option::unwrap_or_default', 0)])
             operand = [o for o in ret if o.kind == 'arg']
             fresh = [o for o in ret if o.kind == 'call' and call_matches(o.term, FRESH_CALLS)]
+            # fold(<fresh>, Command::and): `and` returns its left operand, which is the accumulator, which starts fresh
+            from rules.props import c04
+            fb = c04.fold_of_and(f)
+            fresh += [o for o in ret if o.kind == 'call' and fb is not None and o.bb == fb]
             other = [o for o in ret if o not in operand and o not in fresh]
             key = 'Command::%s|fresh-host' % name
             if operand:
